@@ -15,6 +15,7 @@ import (
 	"sort"
 	"strings"
 	"sync"
+	"sync/atomic"
 	"testing"
 	"time"
 
@@ -25,7 +26,16 @@ import (
 func TestVerifC20Node(t *testing.T) {
 	vRun(t, "C20.node", vCount(250, 6000), func(c *vCase) {
 		c.Bubble(func() {
-			store := &c20Store{m: map[peer.ID][]byte{}}
+			// Yields in the metadata store sit exactly between the validator's read-locked and write-locked
+			// sections, so concurrent validation workers overlap there. (A virtual-time sleep cannot be used:
+			// the store is called with the validator's mutex held, and a goroutine waiting for a mutex is not
+			// durably blocked, so bubble time would never advance.)
+			var yc atomic.Uint64
+			yseed := c.Seed
+			store := &c20Store{m: map[peer.ID][]byte{}, delay: func() int {
+				x := (yc.Add(1) * 0x9e3779b97f4a7c15) ^ yseed
+				return int((x >> 33) % 6)
+			}}
 			hashID := c.Chance(0.5)
 			opts := []Option{WithDefaultValidator(NewBasicSeqnoValidator(store, c20Discard)), WithSeenMessagesTTL(time.Second),
 				WithValidateWorkers(c.Range(1, 8))}
